@@ -106,6 +106,40 @@ func (r *recReader) FmtErr(format string, args ...interface{}) error {
 	return r.inner.FmtErr(format, args...)
 }
 
+// directFormat hands the built-in format reader a byte source of the driver's choosing instead of the one schema.go built
+// (which is always a *bufio.Reader): the format readers are public constructors that accept any io.Reader.
+type directFormat struct {
+	inner fileformat.FileFormat
+	src   *func() io.Reader
+}
+
+func (f *directFormat) ValidateSchema(format string, content []byte, decl *transform.Decl) (interface{}, error) {
+	return f.inner.ValidateSchema(format, content, decl)
+}
+
+func (f *directFormat) CreateFormatReader(name string, input io.Reader, runtime interface{}) (fileformat.FormatReader, error) {
+	if *f.src != nil {
+		input = (*f.src)()
+	}
+	return f.inner.CreateFormatReader(name, input, runtime)
+}
+
+func directExtension(src *func() io.Reader) omniparser.Extension {
+	var ffs []fileformat.FileFormat
+	for _, ff := range []fileformat.FileFormat{
+		legacycsv.NewCSVFileFormat("schema"), csv2.NewCSVFileFormat("schema"), edi.NewEDIFileFormat("schema"),
+		legacyfl.NewFixedLengthFileFormat("schema"), fl2.NewFixedLengthFileFormat("schema"),
+		jsonff.NewJSONFileFormat("schema"), xmlff.NewXMLFileFormat("schema"),
+	} {
+		ffs = append(ffs, &directFormat{inner: ff, src: src})
+	}
+	return omniparser.Extension{
+		CreateSchemaHandler:       omniv21.CreateSchemaHandler,
+		CreateSchemaHandlerParams: &omniv21.CreateParams{CustomFileFormats: ffs},
+		CustomFuncs:               allCustomFuncs(),
+	}
+}
+
 func allCustomFuncs() customfuncs.CustomFuncs {
 	return customfuncs.Merge(customfuncs.CommonCustomFuncs, v21funcs.OmniV21CustomFuncs)
 }
